@@ -138,7 +138,8 @@ def race(fn, timeout, solvers=SOLVERS, all_answers=False):
         procs.append((name, subprocess.Popen(c, stdout=subprocess.PIPE, stderr=subprocess.PIPE, text=True)))
     answers = []
     pending = list(procs)
-    while pending and time.time() - t0 < timeout + 3:
+    deadline = t0 + timeout + 3
+    while pending and time.time() < deadline:
         progressed = False
         for name, p in list(pending):
             if p.poll() is not None:
@@ -149,6 +150,9 @@ def race(fn, timeout, solvers=SOLVERS, all_answers=False):
                 if w in ('sat', 'unsat') and not all_answers:
                     pending = []
                     break
+                if w in ('sat', 'unsat') and all_answers:
+                    # cross-checking: the other solvers get a grace period (10 s or five times what the first answer took), not the whole budget
+                    deadline = min(deadline, time.time() + max(10.0, 5 * (time.time() - t0)))
         if not progressed: time.sleep(0.01)
     for name, p in procs:
         if p.poll() is None:
